@@ -636,6 +636,9 @@ impl DbInner {
 	}
 
 	fn commit_raw(&self, commit: CommitChangeSet) -> Result<()> {
+		// verif hook: smaller queue limits, so that throttling is reachable with small transactions
+		#[cfg(parity_db_verif)]
+		const MAX_COMMIT_QUEUE_BYTES: usize = crate::verif::MAX_COMMIT_QUEUE_BYTES;
 		let mut queue = self.commit_queue.lock();
 
 		#[cfg(any(test, feature = "instrumentation"))]
@@ -767,6 +770,11 @@ impl DbInner {
 	}
 
 	fn process_commits(&self, db: &Arc<DbInner>) -> Result<bool> {
+		// verif hook: smaller queue limits, so that throttling is reachable with small transactions
+		#[cfg(parity_db_verif)]
+		const MAX_COMMIT_QUEUE_BYTES: usize = crate::verif::MAX_COMMIT_QUEUE_BYTES;
+		#[cfg(parity_db_verif)]
+		const MAX_LOG_QUEUE_BYTES: i64 = crate::verif::MAX_LOG_QUEUE_BYTES;
 		#[cfg(any(test, feature = "instrumentation"))]
 		let might_wait_because_the_queue_is_full = self.options.with_background_thread;
 		#[cfg(not(any(test, feature = "instrumentation")))]
@@ -1068,6 +1076,9 @@ impl DbInner {
 	}
 
 	fn enact_logs(&self, validation_mode: bool) -> Result<bool> {
+		// verif hook: smaller queue limit (see commit_raw)
+		#[cfg(parity_db_verif)]
+		const MAX_LOG_QUEUE_BYTES: i64 = crate::verif::MAX_LOG_QUEUE_BYTES;
 		let _iteration_lock = self.iteration_lock.lock();
 		let cleared = {
 			let reader = match self.log.read_next(validation_mode) {
